@@ -17,47 +17,52 @@ deriving Inhabited
 
 def refuse (s : EState) (what : String) : EState := { s with refused := s.refused ++ [what] }
 
+def termTarget (kind : String) : St × Exc × Option ExitStatus :=
+  if kind == "abort" then (Src.abortState, Src.abortExc, Src.abortSetsExit)
+  else if kind == "stop" then (Src.stopState, Src.stopExc, Src.stopSetsExit)
+  else (Src.haltState, Src.haltExc, Src.haltSetsExit)
+
+/-- what the request coroutines store BEFORE the state assignment (abort: reason and exit status) -/
+def termPrep (s : EState) (kind reason : String) : EState :=
+  let s := { s with interrupted := true }
+  if kind == "abort" then { s with reason := reason, exitStatus := (termTarget kind).2.2.getD s.exitStatus } else s
+
+/-- ... and after it: paused -> leave the exception for `_run`; otherwise cancel the task -/
+def termAfter (s : EState) (kind : String) (wasPaused : Bool) : EState :=
+  if wasPaused then
+    let s := { s with exceptionSlot := some (termTarget kind).2.1 }
+    if kind == "halt" then { s with exitStatus := (termTarget kind).2.2.getD s.exitStatus } else s
+  else { s with cancelPending := true }
+
 /-- `_abort_coro` / `_stop_coro` / `_halt_coro` -/
 def requestTerminate (s : EState) (kind : String) (reason : String := "requested") : EState :=
   if s.state == .idle then refuse s kind else
-  let wasPaused := s.state == .paused
-  let (target, exc, setsExit) :=
-    if kind == "abort" then (Src.abortState, Src.abortExc, Src.abortSetsExit)
-    else if kind == "stop" then (Src.stopState, Src.stopExc, Src.stopSetsExit)
-    else (Src.haltState, Src.haltExc, Src.haltSetsExit)
-  let s := { s with interrupted := true }
-  -- abort stores reason and exit status BEFORE the state assignment; halt stores the exit status
-  -- only in the paused branch, after it
-  let s := if kind == "abort" then { s with reason := reason, exitStatus := setsExit.getD s.exitStatus } else s
-  match setState s target with
-  | .error _ => refuse s kind
-  | .ok s =>
-    if wasPaused then
-      let s := { s with exceptionSlot := some exc }
-      if kind == "halt" then { s with exitStatus := setsExit.getD s.exitStatus } else s
-    else { s with cancelPending := true }
+  match setState (termPrep s kind reason) (termTarget kind).1 with
+  | .error _ => refuse (termPrep s kind reason) kind
+  | .ok s' => termAfter s' kind (s.state == .paused)
+
+/-- second half of `_request_suspend`: push the `_start_suspender` message and, unless paused, go to
+    'suspending' and cancel the task -/
+def pushSuspender (fut : Nat) (pre post : Option Gen) (just : Option String) (s : EState) : EState :=
+  let idx := s.suspReqs.length
+  let rq : SuspReq := { fut := fut, pre := pre, post := post, just := just }
+  let startMsg : Msg := { cmd := "_start_suspender", iargs := [(idx : Int)] }
+  let s := { s with suspReqs := s.suspReqs ++ [rq], planStack := Gen.list [startMsg] :: s.planStack,
+                    respStack := .none :: s.respStack }
+  if s.state != .paused then
+    match setState s .suspending with
+    | .ok s => { s with cancelPending := true }
+    | .error _ => refuse s "suspend"
+  else s
 
 /-- the coroutine `_request_suspend` inside `request_suspend` -/
 def requestSuspend (s : EState) (fut : Nat) (pre post : Option Gen) (just : Option String) : EState :=
-  let push (s : EState) : EState :=
-    let idx := s.suspReqs.length
-    let rq : SuspReq := { fut := fut, pre := pre, post := post, just := just }
-    let s := { s with suspReqs := s.suspReqs ++ [rq] }
-    let startMsg : Msg := { cmd := "_start_suspender", iargs := [(idx : Int)] }
-    let s := { s with planStack := Gen.list [startMsg] :: s.planStack,
-                      respStack := .none :: s.respStack }
-    if s.state != .paused then
-      match setState s .suspending with
-      | .ok s => { s with cancelPending := true }
-      | .error _ => refuse s "suspend"
-    else s
   if s.msgCache.isNone then
-    let s := { s with interrupted := true, exceptionSlot := some .failedPause }
     let wasPaused := s.state == .paused
-    match setState s .aborting with
-    | .error _ => refuse s "suspend"
-    | .ok s => push (if !wasPaused then { s with cancelPending := true } else s)
-  else push s
+    match setState { s with interrupted := true, exceptionSlot := some .failedPause } .aborting with
+    | .error _ => refuse { s with interrupted := true, exceptionSlot := some .failedPause } "suspend"
+    | .ok s => pushSuspender fut pre post just (if !wasPaused then { s with cancelPending := true } else s)
+  else pushSuspender fut pre post just s
 
 def monitorUpdate (s : EState) (sig : String) (v : Int) : EState :=
   let s := setDev s sig { (devOf s sig) with value := v }
